@@ -395,7 +395,7 @@ theorem mem_streamModel {i : StreamIn} {e : Ev} (h : e ∈ streamModel i) :
         · exact Or.inr (Or.inr (Or.inr (Or.inr (Or.inl ⟨x, rfl, chunks_good _ _ _ x hx⟩))))
 
 /-- clause `chunk-sizes` on the model: chunks are non-empty and at most `chunk_size` long -/
-theorem model_chunkSizes (i : StreamIn) : cChunkSizes (.stream i) (.stream (streamModel i)) = true := by
+theorem model_chunkSizes (i : StreamIn) (q : List Ev) : cChunkSizes (.stream i) (.stream (streamModel i) q) = true := by
   simp only [cChunkSizes, List.all_eq_true, List.mem_filterMap]
   rintro c ⟨e, he, hc⟩
   rcases mem_streamModel he with rfl | rfl | rfl | h | ⟨x, rfl, hx, hl⟩ | ⟨x, rfl⟩
@@ -428,7 +428,7 @@ theorem dropWhile_notMade_all (l : List Ev) (h : ∀ e ∈ l, isMade e = false) 
     exact ih (fun e he => h e (List.mem_cons_of_mem _ he))
 
 /-- clause `lazy` on the model -/
-theorem model_lazy (i : StreamIn) : cLazy (.stream i) (.stream (streamModel i)) = true := by
+theorem model_lazy (i : StreamIn) (q : List Ev) : cLazy (.stream i) (.stream (streamModel i) q) = true := by
   simp only [cLazy]
   cases hb : i.bufferNow with
   | false =>
@@ -523,8 +523,8 @@ theorem notIter_bufBody {cs : List Bytes} : ∀ e ∈ bufBody cs, isIter e = fal
   rcases he with ⟨x, _, rfl⟩ | rfl <;> rfl
 
 /-- clause `chunk-concat` on the model: the chunks concatenate to the bytes from the seek position to EOF -/
-theorem model_chunkConcat (i : StreamIn) (hn : 1 ≤ i.chunkSize) (hc : i.caps.all (1 ≤ ·) = true) :
-    cChunkConcat (.stream i) (.stream (streamModel i)) = true := by
+theorem model_chunkConcat (i : StreamIn) (hn : 1 ≤ i.chunkSize) (hc : i.caps.all (1 ≤ ·) = true) (q : List Ev) :
+    cChunkConcat (.stream i) (.stream (streamModel i) q) = true := by
   simp only [cChunkConcat, expected]
   cases hsp : startPos i with
   | none => rfl
@@ -555,5 +555,189 @@ theorem model_chunkConcat (i : StreamIn) (hn : 1 ≤ i.chunkSize) (hc : i.caps.a
       cases hf : i.isFile with
       | true => simpa using lazyBodies_file hn hc hf hsp _ _ hd
       | false => simpa using lazyBodies_first hn hc hsp _ _ hd rfl
+
+/-! ### clause `re-evaluation` on the model (seed C16-f) -/
+
+/-- a stream (not a file) whose first seek is accepted accepts the same seek from every position, and it leads to `seekFrom` -/
+theorem seekRes_seekFrom {i : StreamIn} {s : Stream} {off : Int} {wh p : Nat} (hf : i.isFile = false)
+    (hsk : i.seekTo = some (off, wh)) (hsp : startPos i = some p) (hd : s.data = dataOf i) :
+    seekRes i (s0 i s) = .ok ⟨dataOf i, seekFrom i off wh s.pos⟩ := by
+  obtain ⟨d, q⟩ := s
+  simp only at hd
+  subst hd
+  simp only [startPos, hsk, hf, Bool.false_or, seekOrigin] at hsp
+  simp only [seekRes, hsk, s0, hf, Bool.false_eq_true, if_false, seek, seekBase, seekFrom]
+  by_cases hw : wh = 0
+  · subst hw
+    simp only [if_true] at hsp ⊢
+    by_cases ht : (0 : Int) + off < 0
+    · simp only [ht, if_true, decide_true] at hsp
+      cases hsp
+    · simp only [ht, if_false]
+  · simp only [hw, if_false]
+    generalize (if wh = 1 then (q : Int) else ((dataOf i).length : Int)) = o
+    by_cases ht : o + off < 0
+    · simp only [ht, if_true]
+      have : (o + off).toNat = 0 := by omega
+      rw [this]
+    · simp only [ht, if_false]
+
+theorem readAll_pos {i : StreamIn} {s s1 : Stream} (hn : 1 ≤ i.chunkSize) (hc : i.caps.all (1 ≤ ·) = true)
+    (hs : seekRes i (s0 i s) = .ok s1) (c : Bool) :
+    (readAll i s c).2.2 = ⟨s1.data, max s1.pos s1.data.length⟩ := by
+  rw [readAll_ok c hs]
+  simp only [chunks_flatten _ hn _ hc, List.length_drop, Stream.mk.injEq, true_and]
+  omega
+
+theorem lazyBodies_reeval {i : StreamIn} {off : Int} {wh p : Nat} (hn : 1 ≤ i.chunkSize) (hc : i.caps.all (1 ≤ ·) = true)
+    (hf : i.isFile = false) (hsk : i.seekTo = some (off, wh)) (hsp : startPos i = some p) :
+    ∀ (k : Nat) (s : Stream), s.data = dataOf i → reevalOk i off wh s.pos (lazyBodies i k s) = true := by
+  intro k
+  induction k with
+  | zero => intro s _; rfl
+  | succ k ih =>
+    intro s hd
+    have hs := seekRes_seekFrom (s := s) hf hsk hsp hd
+    simp only [lazyBodies, reevalOk, Bool.and_eq_true]
+    refine ⟨segOk_lazy_body hn hc hs, ?_⟩
+    have hp := readAll_pos hn hc hs true
+    have := ih (readAll i s true).2.2 (by rw [readAll_data, hd])
+    rw [hp] at this ⊢
+    simpa [posAfter] using this
+
+/-- clause `re-evaluation` on the model -/
+theorem model_reeval (i : StreamIn) (hn : 1 ≤ i.chunkSize) (hc : i.caps.all (1 ≤ ·) = true) (q : List Ev) :
+    cReeval (.stream i) (.stream (streamModel i) q) = true := by
+  simp only [cReeval]
+  cases hsk : i.seekTo with
+  | none => rfl
+  | some ow =>
+    obtain ⟨off, wh⟩ := ow
+    cases hsp : startPos i with
+    | none => rfl
+    | some p =>
+      simp only
+      cases hf : i.isFile with
+      | true => rfl
+      | false =>
+        cases hb : i.bufferNow with
+        | true => rfl
+        | false =>
+          simp only [Bool.or_self, Bool.false_eq_true, if_false, consumptions]
+          rw [streamModel_lazy hb]
+          have hsegs := segs_lazyIters i i.iters ⟨i.data1.getD i.data0, i.pos0⟩ [Ev.made] (by simp [isIter])
+          simp only [List.singleton_append] at hsegs
+          rw [hsegs]
+          simp only [List.drop_succ_cons, List.drop_zero]
+          have hd : (⟨i.data1.getD i.data0, i.pos0⟩ : Stream).data = dataOf i := by simp [dataOf, hb]
+          have := lazyBodies_reeval hn hc hf hsk hsp i.iters _ hd
+          simpa [posBefore, hf] using this
+
+/-- with an offset counted from the start or the end every consumption is asked for the same bytes -/
+theorem reevalOk_abs {i : StreamIn} {off : Int} {wh : Nat} (hw : wh ≠ 1) :
+    ∀ (segs : List (List Ev)) (cur : Nat),
+      reevalOk i off wh cur segs = segs.all (segOk ((dataOf i).drop (seekFrom i off wh 0))) := by
+  intro segs
+  induction segs with
+  | nil => intro _; rfl
+  | cons seg rest ih =>
+    intro cur
+    have hcur : seekFrom i off wh cur = seekFrom i off wh 0 := by
+      simp only [seekFrom]
+      by_cases h0 : wh = 0 <;> simp [h0, hw]
+    simp only [reevalOk, List.all_cons, ih, hcur]
+
+/-! ### clause `eq-self` on the model -/
+
+theorem filterMap_eqAnswer_readAll (i : StreamIn) (s : Stream) (c : Bool) : (readAll i s c).1.filterMap eqAnswer = [] := by
+  simp only [List.filterMap_eq_nil_iff]
+  intro e he
+  rcases mem_readAll he with h | ⟨x, rfl, _⟩ | ⟨b, rfl⟩
+  · cases e <;> simp_all [ioEv, eqAnswer]
+  · rfl
+  · rfl
+
+/-- when every evaluation from a state with these data and ANY position yields the same bytes, every `c == c` answers True -/
+theorem lazyEqs_true {i : StreamIn} (want : Bytes)
+    (h : ∀ s : Stream, s.data = dataOf i → ∃ cs, (readAll i s false).2.1 = some cs ∧ cs.flatten = want) :
+    ∀ (k : Nat) (s : Stream), s.data = dataOf i → (lazyEqs i k s).filterMap eqAnswer = List.replicate k true := by
+  intro k
+  induction k with
+  | zero => intro s _; rfl
+  | succ k ih =>
+    intro s hd
+    obtain ⟨a, ha, haw⟩ := h s hd
+    have hd1 : (readAll i s false).2.2.data = dataOf i := by rw [readAll_data, hd]
+    obtain ⟨b, hb, hbw⟩ := h _ hd1
+    have hd2 : (readAll i (readAll i s false).2.2 false).2.2.data = dataOf i := by rw [readAll_data, hd1]
+    simp only [lazyEqs, ha, hb, List.filterMap_append, filterMap_eqAnswer_readAll, List.nil_append, ih _ hd2,
+      List.filterMap_cons, eqAnswer, List.filterMap_nil, haw, hbw, beq_self_eq_true, List.singleton_append,
+      List.replicate_succ]
+
+theorem lazyEnd_data (i : StreamIn) : ∀ (k : Nat) (s : Stream), (lazyEnd i k s).data = s.data := by
+  intro k
+  induction k with
+  | zero => intro s; rfl
+  | succ k ih => intro s; simp only [lazyEnd, ih, readAll_data]
+
+/-- clause `eq-self` on the model -/
+theorem model_eqSelf (i : StreamIn) (hn : 1 ≤ i.chunkSize) (hc : i.caps.all (1 ≤ ·) = true) (q : List Ev) :
+    cEqSelf (.stream i) (.stream q (streamEqModel i)) = true := by
+  simp only [cEqSelf, expected]
+  rcases Option.eq_none_or_eq_some (startPos i) with hsp | ⟨p, hsp⟩
+  · simp [hsp]
+  simp only [hsp, Option.map_some, Option.isSome_some, Bool.true_and]
+  split
+  · next hcfg =>
+    cases hb : i.bufferNow with
+    | true =>
+      have hd : (sInit i).data = dataOf i := by simp [sInit, dataOf, hb]
+      have hs := seekRes_startPos hd (Or.inr rfl) hsp
+      have := readAll_ok false hs
+      simp only [sInit] at this
+      simp only [streamEqModel, hb, if_true, this]
+      have : ∀ k : Nat, List.filterMap eqAnswer (List.replicate k (Ev.eqSelf true)) = List.replicate k true := by
+        intro k; induction k with
+        | zero => rfl
+        | succ k ih => simp [List.replicate_succ, eqAnswer, ih]
+      simp [this]
+    | false =>
+      simp only [streamEqModel, hb, Bool.false_eq_true, if_false]
+      have hd : (lazyEnd i i.iters ⟨i.data1.getD i.data0, i.pos0⟩).data = dataOf i := by
+        rw [lazyEnd_data]; simp [dataOf, hb]
+      refine beq_iff_eq.mpr (lazyEqs_true ((dataOf i).drop p) ?_ i.eqs _ hd)
+      intro s hds
+      simp only [hb, Bool.or_false, Bool.or_eq_true] at hcfg
+      rcases hcfg with hf | habs
+      · have hs := seekRes_startPos hds (Or.inl hf) hsp
+        rw [readAll_ok false hs]
+        exact ⟨_, rfl, chunks_flatten _ hn _ hc _⟩
+      · cases hf : i.isFile with
+        | true =>
+          have hs := seekRes_startPos hds (Or.inl hf) hsp
+          rw [readAll_ok false hs]
+          exact ⟨_, rfl, chunks_flatten _ hn _ hc _⟩
+        | false =>
+          unfold absSeek at habs
+          cases hsk : i.seekTo with
+          | none => simp [hsk] at habs
+          | some ow =>
+            obtain ⟨off, wh⟩ := ow
+            simp only [hsk, bne_iff_ne, ne_eq] at habs
+            have hs := seekRes_seekFrom (s := s) hf hsk hsp hds
+            rw [readAll_ok false hs]
+            refine ⟨_, rfl, ?_⟩
+            rw [chunks_flatten _ hn _ hc]
+            -- the position does not depend on where the stream stands
+            have hp0 : seekFrom i off wh s.pos = p := by
+              have h2 := seekRes_seekFrom (s := ⟨dataOf i, i.pos0⟩) hf hsk hsp rfl
+              have h3 := seekRes_startPos (s := ⟨dataOf i, i.pos0⟩) rfl (Or.inr rfl) hsp
+              rw [h3] at h2
+              have : p = seekFrom i off wh i.pos0 := by simpa using h2
+              rw [this]
+              simp only [seekFrom]
+              by_cases h0 : wh = 0 <;> simp [h0, habs]
+            simp [hp0]
+  · rfl
 
 end TTV.Lemmas.ContentStream
